@@ -3,6 +3,8 @@
 import sys, subprocess, os, json
 name, prop, f, old, new = sys.argv[1:6]
 note = sys.argv[6] if len(sys.argv) > 6 else ""
+if subprocess.run(["git", "-C", "/repo", "status", "--porcelain"], capture_output=True, text=True).stdout.strip():
+    sys.exit("repo dirty: commit contract edits first")
 path = os.path.join("/repo", f)
 s = open(path).read()
 assert s.count(old) >= 1, "pattern not found"
